@@ -99,11 +99,12 @@ type ReqPlan struct {
 }
 
 type Plan struct {
-	MaxConns    int         `json:"max_conns"`
-	WaitTimeout int         `json:"max_conn_wait_timeout_ms"`
-	Goroutines  [][]ReqPlan `json:"goroutines"`
-	DialFaults  []int       `json:"dial_faults"`           // per dial: 0 ok, 1 error, 2 slow
-	Yields      []int       `json:"yield_table,omitempty"` // action at the n-th pool lock boundary (mod len): 0 none, 1 Gosched, 2 20us, 3 300us, 4 2ms
+	MaxConns          int         `json:"max_conns"`
+	WaitTimeout       int         `json:"max_conn_wait_timeout_ms"`
+	Goroutines        [][]ReqPlan `json:"goroutines"`
+	MaxConnDurationMs int         `json:"max_conn_duration_ms,omitempty"` // 0 = unlimited; on older connections the client announces Connection: close
+	DialFaults        []int       `json:"dial_faults"`                    // per dial: 0 ok, 1 error, 2 slow
+	Yields            []int       `json:"yield_table,omitempty"`          // action at the n-th pool lock boundary (mod len): 0 none, 1 Gosched, 2 20us, 3 300us, 4 2ms
 }
 
 // ---------------------------------------------------------------------------
@@ -125,7 +126,9 @@ type world struct {
 	log        []string
 	hc         *http1.HostClient
 	overshoots int32
-	maxLate    int64 // worst observed wake-up lateness of the heartbeat (ns)
+	ends       map[int]*clientEnd // conn id -> client end
+	announced  map[int]string     // conn id -> id of the request on which the client announced Connection: close
+	maxLate    int64              // worst observed wake-up lateness of the heartbeat (ns)
 	// reuse of a connection after a stalled exchange: a violation only if the client's call for
 	// the stalled exchange really failed (decided after all calls returned, from the call results —
 	// under heavy machine load the 40 ms read deadline can lose the race against the 130 ms stall,
@@ -232,7 +235,11 @@ func (w *world) dial(n int, addr string) (net.Conn, error) {
 	w.logf("dial %d -> conn%d (open=%d)", d, id, open)
 	w.wg.Add(1)
 	go w.peer(id, sc)
-	return &clientEnd{Conn: cc, w: w, connID: id}, nil
+	ce := &clientEnd{Conn: cc, w: w, connID: id}
+	w.mu.Lock()
+	w.ends[id] = ce
+	w.mu.Unlock()
+	return ce, nil
 }
 
 func response(id string, extra string) []byte {
@@ -246,6 +253,7 @@ func (w *world) peer(connID int, c net.Conn) {
 	defer c.Close()
 	var buf []byte
 	tainted := ""
+	pendingTaint := ""
 	stalledID := ""
 	tmp := make([]byte, 4096)
 	for {
@@ -291,6 +299,13 @@ func (w *world) peer(connID int, c net.Conn) {
 			w.mu.Lock()
 			w.stallReuse = append(w.stallReuse, stallReuse{connID, id, stalledID})
 			w.mu.Unlock()
+		}
+		if wire.HasToken(req.Headers, "Connection", "close") {
+			// the client itself announced that this is the last exchange on the connection (MaxConnDuration)
+			w.mu.Lock()
+			w.announced[connID] = id
+			w.mu.Unlock()
+			pendingTaint = "the request id=" + id + " carried Connection: close"
 		}
 		if len(rest) > 0 {
 			w.violate("conn%d: a second request arrived before the first (id=%s) was answered: the connection carries two requests at a time", connID, id)
@@ -358,6 +373,9 @@ func (w *world) peer(connID int, c net.Conn) {
 				stalledID = id
 			}
 		}
+		if pendingTaint != "" {
+			tainted = pendingTaint
+		}
 		done()
 	}
 }
@@ -372,13 +390,14 @@ type callResult struct {
 }
 
 func runPlan(p *Plan) (string, *world) {
-	w := &world{plan: p, faults: map[string]int{}, recv: map[string]int{}, method: map[string]string{}}
+	w := &world{plan: p, faults: map[string]int{}, recv: map[string]int{}, method: map[string]string{}, ends: map[int]*clientEnd{}, announced: map[int]string{}}
 	for _, g := range p.Goroutines {
 		for _, r := range g {
 			w.faults[r.ID] = r.Fault
 		}
 	}
-	opts := http1.ClientOptions{MaxConns: p.MaxConns, MaxConnWaitTimeout: time.Duration(p.WaitTimeout) * time.Millisecond, MaxIdleConnDuration: time.Hour, DialTimeout: time.Second}
+	opts := http1.ClientOptions{MaxConns: p.MaxConns, MaxConnWaitTimeout: time.Duration(p.WaitTimeout) * time.Millisecond, MaxIdleConnDuration: time.Hour, DialTimeout: time.Second,
+		MaxConnDuration: time.Duration(p.MaxConnDurationMs) * time.Millisecond}
 	yieldTable.Store(append([]int(nil), p.Yields...))
 	atomic.StoreUint32(&yieldCounter, 0)
 	cl := cli.New(opts, w.dial)
@@ -549,6 +568,15 @@ func runPlan(p *Plan) (string, *world) {
 		}
 		return "at quiescence: " + msg, w
 	}
+	// a connection on which the client announced Connection: close must have been closed by the client
+	w.mu.Lock()
+	for cid, rid := range w.announced {
+		if ce := w.ends[cid]; ce != nil && atomic.LoadInt32(&ce.localClosed) == 0 {
+			w.mu.Unlock()
+			return fmt.Sprintf("conn%d: the client sent Connection: close on request id=%s (MaxConnDuration %d ms exceeded) but did not close the connection after the exchange: it is still counted/pooled", cid, rid, p.MaxConnDurationMs), w
+		}
+	}
+	w.mu.Unlock()
 	// one clean request sweeps the lazily cleaned waiter queue
 	{
 		w.mu.Lock()
@@ -621,6 +649,7 @@ func genPlan(t *rapid.T) *Plan {
 		}
 		p.Goroutines = append(p.Goroutines, rs)
 	}
+	p.MaxConnDurationMs = rapid.SampledFrom([]int{0, 0, 1, 4}).Draw(t, "maxConnDurationMs")
 	if rapid.IntRange(0, 2).Draw(t, "perturb") > 0 {
 		for i := rapid.IntRange(1, 24).Draw(t, "yieldTableLen"); i > 0; i-- {
 			p.Yields = append(p.Yields, rapid.SampledFrom([]int{0, 0, 0, 1, 1, 2, 3, 4}).Draw(t, "yield"))
@@ -654,6 +683,9 @@ func classify(p *Plan) (bool, []string) {
 	}
 	if len(p.Yields) > 0 {
 		cls = append(cls, "schedule-perturbed-at-pool-lock-boundaries")
+	}
+	if p.MaxConnDurationMs > 0 {
+		cls = append(cls, "max-conn-duration")
 	}
 	nt := len(p.Goroutines) >= 2 && len(p.Goroutines) > p.MaxConns && faults >= 1
 	seen := map[string]bool{}
